@@ -27,6 +27,7 @@ def dispatch (op : String) (payload : Json) : R Json :=
   | "no_crash_shape" => C07.handle payload
   | "root_context" => File.handleRoot payload
   | "analyse_file" => File.handleFile payload
+  | "pipeline" => Pipeline.handle payload
   | _ => .error s!"unknown op {op}"
 
 partial def loop (h : IO.FS.Stream) (out : IO.FS.Stream) : IO Unit := do
